@@ -120,7 +120,7 @@ def minRank : R := ⟨[65535, 0, 0, 0], -2147483648⟩
 structure Merger where
   lists : List (List R)
   merged : List R := []        -- in order
-  cursors : List Int
+  cursors : List Nat           -- next unread position of each list (Go marks an exhausted list with -1)
   sorted : Bool
   tac : Bool
 deriving Repr
@@ -130,25 +130,23 @@ def Merger.new (lists : List (List R)) (sorted tac : Bool) : Merger :=
 
 def Merger.count (m : Merger) : Nat := (m.lists.map List.length).sum
 
-/-- One round of `mergedGet`'s outer loop: pick the best head, append it. `none` = panic. -/
-def Merger.mergeStep (m : Merger) : Option Merger := Id.run do
-  let mut best : Option (R × Nat) := none
-  let mut cursors := m.cursors
-  let mut li := 0
-  for l in m.lists do
-    let c := cursors.getD li 0
-    if c < 0 ∨ c == l.length then
-      cursors := cursors.set li (-1)
-    else
-      let rank := l.getD c.toNat default
+/-- The inner loop of `mergedGet`: scanning the lists left to right, the head of a list that is not
+    exhausted replaces the candidate when it compares less. -/
+def bestHead (tac : Bool) : List (List R × Nat) → Nat → Option (R × Nat) → Option (R × Nat)
+  | [], _, best => best
+  | (l, c) :: rest, li, best =>
+    match l[c]? with
+    | none => bestHead tac rest (li + 1) best
+    | some r =>
       match best with
-      | none => best := some (rank, li)
-      | some (mr, _) => if compareRanks64 rank mr m.tac then best := some (rank, li)
-    li := li + 1
-  match best with
-  | none => return none
-  | some (r, i) =>
-    return some { m with merged := m.merged ++ [r], cursors := cursors.set i (cursors.getD i 0 + 1) }
+      | none => bestHead tac rest (li + 1) (some (r, li))
+      | some (mr, mi) => bestHead tac rest (li + 1) (if compareRanks64 r mr tac then some (r, li) else some (mr, mi))
+
+/-- One round of `mergedGet`'s outer loop: pick the best head, append it. `none` = panic. -/
+def Merger.mergeStep (m : Merger) : Option Merger :=
+  match bestHead m.tac (m.lists.zip m.cursors) 0 none with
+  | none => none
+  | some (r, i) => some { m with merged := m.merged ++ [r], cursors := m.cursors.set i (m.cursors.getD i 0 + 1) }
 
 /-- `Merger.Get idx` (not the pass-through variant): new state and the result; `none` = panic. -/
 def Merger.get (m : Merger) (idx : Nat) : Option (Merger × R) :=
